@@ -223,6 +223,7 @@ class Scheduler(object):
         self.granularity = granularity
         self._locks = []
         self.stall = None
+        self.freezes = {}           # step -> (tid, microseconds)
 
     # -- objects handed to lomond
     def make_lock(self, reentrant=False):
@@ -380,6 +381,19 @@ class Scheduler(object):
             return
         if self.aborted:
             raise W.SimAbort()
+        fz = self.freezes.get(self.steps + 1) if self.freezes else None
+        if fz is not None and fz[0] == me.tid:
+            # the operating system takes this thread off the CPU for a while
+            # (descheduled under load, page fault, stopped by a debugger ...)
+            self.stats['thread_frozen'] += 1
+            self.w.fired('thread_descheduled')
+            self.switch_sites.append((me.tid, -2, where))
+            me.state = 'sleep'
+            me.deadline = self.w.now + int(fz[1])
+            self.switch_away(me)
+            me.state = 'runnable'
+            me.deadline = None
+            return
         nxt = self._pick(me)
         if nxt is None or nxt is me:
             return
@@ -513,6 +527,8 @@ def run(scen):
                            len(programs) + 1 + (1 if second else 0))
     sched = Scheduler(w, chooser, scen.get('max_steps', 20000))
     sched.stall = scen.get('stall')
+    for st_, tid_, us_ in (scen.get('schedule') or {}).get('freeze') or []:
+        sched.freezes[int(st_)] = (int(tid_), int(us_))
     w.sched = sched
     trace = netsim.Trace()
     trace.world = w
@@ -600,44 +616,65 @@ def run(scen):
                     break
         gen = ws.connect(**ckw)
         idx = 0
+        connects_left = [scen.get('n_connects', 1) - 1]
+        kept = []
         try:
-            for event in gen:
-                rec = netsim.EvRec()
-                rec.seq = w.next_seq()
-                rec.t = w.now
-                rec.name = event.name
-                rec.obj = event
-                rec.snap = netsim.snapshot(event)
-                rec.index = idx
-                rec.conn = w.conn_index
-                rec.wire_len = len(w.socks[-1].out_bytes) if w.socks else 0
-                rec.open_socks = sum(1 for s_ in w.socks if not s_.closed)
-                trace.events.append(rec)
-                idx += 1
-                if idx > scen.get('max_events', 2000):
-                    raise W.SimHang('event budget exhausted')
-                nth = counts.get(event.name, 0)
-                counts[event.name] = nth + 1
-                if not started[0] and event.name == start_at.get('name') and \
-                        nth == start_at.get('nth', 0):
-                    started[0] = True
-                    # the concurrent phase begins: spawn the sender threads
-                    sched.active = True
-                    for th in senders:
-                        sched.start_thread(th)
-                    if loop2[0] is not None:
-                        sched.start_thread(loop2[0])
-                    sched.yield_point('spawn')
-                elif started[0]:
-                    r = app.react(rec)
-                    if r is not None and r[0] == 'abandon':
-                        trace.abandoned = (rec.index, r[1], rec.name)
-                        if r[1] == 'close':
-                            gen.close()
-                        break
-            else:
+          while True:
+              for event in gen:
+                  rec = netsim.EvRec()
+                  rec.seq = w.next_seq()
+                  rec.t = w.now
+                  rec.name = event.name
+                  rec.obj = event
+                  rec.snap = netsim.snapshot(event)
+                  rec.index = idx
+                  rec.conn = w.conn_index
+                  rec.wire_len = len(w.socks[-1].out_bytes) if w.socks else 0
+                  rec.open_socks = sum(1 for s_ in w.socks if not s_.closed)
+                  trace.events.append(rec)
+                  idx += 1
+                  if idx > scen.get('max_events', 2000):
+                      raise W.SimHang('event budget exhausted')
+                  nth = counts.get(event.name, 0)
+                  counts[event.name] = nth + 1
+                  if not started[0] and event.name == start_at.get('name') and \
+                          nth == start_at.get('nth', 0):
+                      started[0] = True
+                      # the concurrent phase begins: spawn the sender threads
+                      sched.active = True
+                      for th in senders:
+                          sched.start_thread(th)
+                      if loop2[0] is not None:
+                          sched.start_thread(loop2[0])
+                      app.observe(rec)
+                      sched.yield_point('spawn')
+                  elif not started[0]:
+                      app.observe(rec)
+                  elif started[0]:
+                      r = app.react(rec)
+                      if r is not None and r[0] == 'abandon':
+                          trace.abandoned = (rec.index, r[1], rec.name)
+                          if r[1] == 'close':
+                              gen.close()
+                          break
+              else:
                 trace.finished = True
-            gen = None
+              if scen.get('hold') and trace.abandoned is not None:
+                  kept.append(gen)    # the consumer keeps the old generator
+              if not scen.get('rebind'):
+                  gen = None      # released first, then connect() again
+              if trace.abandoned is not None and connects_left[0] > 0 and \
+                      not trace.finished:
+                  # the consumer connects the same object again
+                  connects_left[0] -= 1
+                  trace.events.append(netsim._sep(w, idx))
+                  idx += 1
+                  trace.reconnected = True
+                  gen = ws.connect(**ckw)
+                  continue
+              gen = None
+              del kept[:]
+              break
         except W.SimHang as e:
             trace.hang = str(e)
         except W.SimAbort:
